@@ -3,6 +3,8 @@
 package bus
 
 import (
+	"bytes"
+
 	"github.com/lugu/qiloop/bus/net"
 	"github.com/lugu/qiloop/internal/zzverif/sym"
 	"github.com/lugu/qiloop/type/object"
@@ -634,4 +636,56 @@ func C13RegisterRacingDisconnect() {
 	h.signalsMutex.RUnlock()
 	sym.Assert(n <= 2, "register-race/departed-subscriber-still-registered")
 	sym.Reach("register-race-done")
+}
+
+// C13LargeEventWhileSubscribing: a large event (5000 bytes) is emitted to a subscriber while the object
+// answers another registration of the same client on the same connection: the subscriber's stream
+// carries exactly that event, intact, and the answer — whatever the interleaving of the two senders.
+func C13LargeEventWhileSubscribing() {
+	sym.SetMaxMaterialise(1 << 16)
+	h := newSignalHandler()
+	h.Activate(Activation{ServiceID: 9, ObjectID: 1})
+	st := newZZStream()
+	ch := NewChannel(net.NewEndPoint(st), DefaultCap())
+	msg := zzFrame(net.Call, 9, 1, 0, 10, zzRegisterPayload(1, 0x60, 70))
+	sym.Assert(h.RegisterEvent(&msg, ch) == nil, "register-ok")
+	mark := len(st.sent())
+	const n = 5000
+	data := make([]byte, n)
+	data[0], data[n/2], data[n-1] = sym.U8("first"), sym.U8("middle"), sym.U8("last")
+	done := make(chan bool, 2)
+	go func() { h.UpdateSignal(0x60, data); done <- true }()
+	go func() {
+		msg := zzFrame(net.Call, 9, 1, 0, 41, zzRegisterPayload(1, 0x61, 71))
+		sym.Assert(h.RegisterEvent(&msg, ch) == nil, "second-register-ok")
+		done <- true
+	}()
+	<-done
+	<-done
+	wire := st.sent()[mark:]
+	r := bytes.NewReader(wire)
+	events, replies := 0, 0
+	for r.Len() > 0 {
+		var m net.Message
+		if err := m.Read(r); err != nil {
+			sym.Fail("large-event/stream-corrupted")
+			return
+		}
+		switch m.Header.Type {
+		case net.Event:
+			events++
+			sym.Assert(len(m.Payload) == n, "large-event/payload-length")
+			if len(m.Payload) == n {
+				sym.Assert(sym.And(m.Payload[0] == data[0], sym.And(m.Payload[n/2] == data[n/2], m.Payload[n-1] == data[n-1])), "large-event/payload-altered")
+			}
+		case net.Reply:
+			replies++
+			sym.Assert(m.Header.ID == 41, "large-event/answer-id")
+		default:
+			sym.Fail("large-event/unexpected-frame")
+		}
+	}
+	sym.Assert(events == 1, "large-event/event-count")
+	sym.Assert(replies == 1, "large-event/answer-count")
+	sym.Reach("large-event-done")
 }
